@@ -311,7 +311,9 @@ func init() {
 		// two ballots and several waits: only setConfig votes for two ids and the clock, deeper
 		parts = append(parts, part{"neofs-votes-n2-two-ballots-timing", func() Driver { return NewVoteTimingDriver(2) }, 6, 8, 30, 150},
 			part{"neofs-votes-n3-two-ballots-timing", func() Driver { return NewVoteTimingDriver(3) }, 6, 8, 30, 150},
-			part{"neofs-votes-n4-two-ballots-timing", func() Driver { return NewVoteTimingDriver(4) }, 0, 7, 30, 150})
+			part{"neofs-votes-n4-two-ballots-timing", func() Driver { return NewVoteTimingDriver(4) }, 0, 7, 30, 150},
+			part{"neofs-votes-n2-callers", func() Driver { return NewVoteCallersDriver(2) }, 5, 7, 30, 150},
+			part{"neofs-votes-n3-callers", func() Driver { return NewVoteCallersDriver(3) }, 5, 6, 30, 150})
 		// without the symmetry reduction (every voter order), thorough tier only
 		parts = append(parts, part{"neofs-votes-n3-all-orders", func() Driver { return NewVoteDriver(3, false, true) }, 0, 5, 30, 150})
 		multiBfsCheck("C17", parts, nil)
